@@ -198,11 +198,38 @@ def exitCtx (c : Sre) (s : St) : Compl → Sre
 
 /-! ### exception_filter -/
 
-/-- a predicate as a finite table: accepted ids, ids on which it raises (and what) -/
+/-- what a predicate may return: any Python object; `__exit__` hands it to the `with` statement
+    (334-336) and `__call__` tests `not …` (347), so only its truth value matters -/
+inductive PyVal
+  | bool (b : Bool)
+  | int (n : Int)
+  | str (len : Nat) | list (len : Nat) | tuple (len : Nat)
+  | none
+  | object                    -- a plain object: true
+  | matchObj                  -- an `re.Match`: true
+  | custom (b : Bool)         -- an object whose `__bool__` returns `b`
+  deriving DecidableEq, Repr
+
+/-- Python truth value testing -/
+def PyVal.truthy : PyVal → Bool
+  | .bool b => b
+  | .int n => n != 0
+  | .str n | .list n | .tuple n => n != 0
+  | .none => false
+  | .object | .matchObj => true
+  | .custom b => b
+
+/-- a predicate as a finite table: the ids in `accept` get the answer `yes`, every other `no` (any
+    Python values), except the ids in `raises`, on which it raises (and what) -/
 structure Pred where
   accept : List ExcId
   raises : List (ExcId × ExcId)
+  yes : PyVal := .bool true
+  no : PyVal := .bool false
   deriving DecidableEq, Repr
+
+/-- the object the predicate returns for `e` (when it does not raise) -/
+def Pred.value (p : Pred) (e : ExcId) : PyVal := if p.accept.contains e then p.yes else p.no
 
 inductive PredRes
   | accept | reject
@@ -212,7 +239,7 @@ inductive PredRes
 def Pred.eval (p : Pred) (e : ExcId) : PredRes :=
   match p.raises.lookup e with
   | some r => .raises r
-  | none => if p.accept.contains e then .accept else .reject
+  | none => if (p.value e).truthy then .accept else .reject      -- truth value of the returned object
 
 /-- an `exception_filter` instance: its `_should_ignore_ex` (321-326) -/
 structure Filter where
